@@ -74,7 +74,7 @@ func (f *Mapcar) Call(s *slip.Scope, args slip.List, depth int) (result slip.Obj
 				l2, _ := args[i].(slip.List)
 				ca[i-1] = l2[n]
 			}
-			if rlist[n] = caller.Call(s, ca, d2); slip.IsExit(rlist[n]) {
+			if rlist[n] = slip.PrimaryValue(caller.Call(s, ca, d2)); slip.IsExit(rlist[n]) {
 				return rlist[n]
 			}
 		}
@@ -82,7 +82,7 @@ func (f *Mapcar) Call(s *slip.Scope, args slip.List, depth int) (result slip.Obj
 		// The most common case.
 		rlist = make(slip.List, len(list))
 		for i, v := range list {
-			if rlist[i] = caller.Call(s, slip.List{v}, d2); slip.IsExit(rlist[i]) {
+			if rlist[i] = slip.PrimaryValue(caller.Call(s, slip.List{v}, d2)); slip.IsExit(rlist[i]) {
 				return rlist[i]
 			}
 		}
